@@ -723,7 +723,7 @@ class BaseProject(object, metaclass=ABCMeta):
         for step_time in sorted(self.absence_time_list, reverse=True):
             if step_time < len(self.cost_list):
                 self.cost_list.pop(step_time)
-        self.time = self.time - len(self.absence_time_list)
+                self.time = self.time - 1
         self.absence_time_list = []
 
     def insert_absence_time_list(self, absence_time_list):
